@@ -50,6 +50,15 @@ type TcpResult struct {
 	Events     []WireEvent    `json:"events"`
 }
 
+func containsInt(xs []int, x int) bool {
+	for _, y := range xs {
+		if y == x {
+			return true
+		}
+	}
+	return false
+}
+
 func freePort() (int, error) {
 	l, err := net.Listen("tcp", "127.0.0.1:0")
 	if err != nil {
@@ -373,8 +382,12 @@ func runTcpBoot(c *TcpCase, res *TcpResult) {
 	syncRet := make([]int32, c.Listeners) // 1 = Sync returned
 	for i := 0; i < c.Listeners; i++ {
 		port, err := freePort()
-		if err != nil {
-			res.HarnessErr = err.Error()
+		for k := 0; k < 20 && err == nil && containsInt(ports, port); k++ {
+			port, err = freePort() // the kernel handed out the port of the other listener again
+		}
+		if err != nil || containsInt(ports, port) {
+			res.Diverged++
+			bs.Shutdown()
 			return
 		}
 		ports = append(ports, port)
